@@ -128,6 +128,15 @@ impl Acc {
     }
 }
 
+static LIGHT: std::sync::atomic::AtomicBool = std::sync::atomic::AtomicBool::new(false);
+/// "matrix tier": reduced alphabets used when the same checks run once per build configuration (C20 quick).
+pub fn set_light(b: bool) {
+    LIGHT.store(b, Ordering::Relaxed);
+}
+pub fn light() -> bool {
+    LIGHT.load(Ordering::Relaxed)
+}
+
 pub fn threads() -> usize {
     std::env::var("VERIF_THREADS")
         .ok()
